@@ -8,13 +8,21 @@ LEAN_MODULES = ["IsoVerif.Props.C02"]
 THEOREMS = [
     "IsoVerif.Props.C02.C02_witness_spurious_dep",
     "IsoVerif.Props.C02.C02_statement_false",
+    "IsoVerif.Props.C02.C02_equal_write_noop",
+    "IsoVerif.Props.C02.C02_equal_write_noop_singleton",
+    "IsoVerif.Props.C02.C02_equal_write_no_rerun",
+    "IsoVerif.Props.C02.C02_unrelated_write_partial",
 ]
 HARNESS = ("hx_pico", {"HX_ENGINE": "c02"})
 DRIVER = "drv_pico"
 CASES = {"quick": 2400, "thorough": 120000}
 TECHNIQUE = _b.TECHNIQUE.replace("every call's value = from-scratch evaluation on the current sources",
                                  "the implementation's per-function run-counter deltas must lie within what an ideal memoiser (semantic direct dependencies, no stamps) executes")
-PARTIAL = []
+PARTIAL = [
+    "C02_statement is false of today's code: F22 (dependencies registered on the caller's frame while a callee is only verified) is an open known finding with a witness theorem; F3 was repaired (/repo b7bfe5c) and C02_equal_write_noop / _no_rerun are theorems about the repaired code for ALL programs and states",
+    "C02_unrelated_write_partial carries nesting depth 0 (Flat) and clean calls only, and speaks about pico's RECORDED dependencies of the node",
+    "backdating (a re-executed intermediate with an equal value does not re-execute its dependents) is not carried by a theorem: it is false in general (F22) and for nested programs rests on the correspondence + ideal-memoiser oracle",
+]
 ASSUMPTIONS = _b.ASSUMPTIONS + [
     "which nodes a collection discarded is taken from the (agreeing) model: the implementation does not expose it",
     "the oracle makes no claim after the first call of a case that panicked, returned a stale value (C01) or ran a different set of bodies than the ideal memoiser",
